@@ -70,7 +70,7 @@ void __verif_cut_backjump(void)
 }
 void harness(void)
 {
-	VERIF_GHOST_RESET(); __verif_crash_is_bug = 1; _dispatch_data_empty.size = 0;
+	VERIF_GHOST_RESET(); __verif_crash_is_bug = 1; h_io_reset(); _dispatch_data_empty.size = 0;
 	H_U = ND(size_t); H_BL0 = ND(size_t); H_BS0 = ND(size_t); H_T0 = ND(size_t); H_LEN = ND(size_t); H_high = ND(size_t); H_chunk = ND(size_t);
 	H_cflags = ND(unsigned) & 3; H_fde_err0 = ND(int); H_fd0 = ND_BOOL() ? -1 : 5; H_off0 = ND(off_t); H_conv = ND_BOOL();
 	__CPROVER_assume(H_chunk >= 1 && H_chunk <= (1u << 30) && H_high >= 1 && H_high <= (1ull << 40) && H_U < H_high && H_T0 < H_LEN && H_T0 <= (1ull << 50) && H_off0 >= 0 && H_off0 <= (1ll << 40));
